@@ -234,10 +234,13 @@ class Ctx:
                   assumptions=self.assumptions, wall_s=round(time.time() - self.t0, 2), violations=len(self.violations),
                   known_findings_observed=self.known_hits, notes=self.notes,
                   repo_head=git_head(), harness_hooks=getattr(self, "hooks", None))
-        os.makedirs(os.path.join(VERIF, "evidence"), exist_ok=True)
-        tmp = os.path.join(VERIF, "evidence", ".%s.%d.tmp" % (self.prop, os.getpid()))
+        # evidence/ describes runs against /repo itself; a run against another tree (VERIF_REPO=<scratch worktree>, used
+        # to evaluate seeded changes) writes its evidence under .work/ so that it never replaces the committed files
+        evdir = os.path.join(VERIF, "evidence") if os.path.realpath(REPO) == "/repo" else os.path.join(VERIF, ".work", "evidence-other-tree")
+        os.makedirs(evdir, exist_ok=True)
+        tmp = os.path.join(evdir, ".%s.%d.tmp" % (self.prop, os.getpid()))
         json.dump(ev, open(tmp, "w"), indent=1, sort_keys=True)
-        os.replace(tmp, os.path.join(VERIF, "evidence", self.prop + ".json"))
+        os.replace(tmp, os.path.join(evdir, self.prop + ".json"))
         for k in self.known_hits:
             print("KNOWN-FINDING: property=%s %s" % (self.prop, k))
         for v in self.violations:
